@@ -90,6 +90,23 @@ JudgeScIdent(e, i) ==
     ELSE [d |-> (IF e.out # "ok" THEN OutDiag(e.out) ELSE IF e.c = 1 THEN "ok" ELSE "identity_broken"),
           nt |-> ~IsZero(TruncRem(a, b)), cls |-> cls]
 
+\* quotient(a, b) = make_scaled_integer(make_fraction(a, b)): the true quotient truncated toward zero at the result
+\* resolution, in a type wide enough that no input can overflow it
+JudgeScQuot(e, i) ==
+    LET lt == i.lt  rt == i.rt  rs == i.res_t  a == J(e.l)  b == J(e.r)
+        sh == ExpOf(lt) - ExpOf(rt) - ExpOf(rs)
+        want == IF sh >= 0 THEN TruncDiv(Shl(a, sh), b) ELSE TruncDiv(a, Shl(b, -sh))
+        \* widest possible quotient: |a| maximal, |b| = 1
+        widest == IF sh >= 0 THEN Shl(RawMax(lt), sh) ELSE ShrTrunc(RawMax(lt), -sh)
+        cls == ScCls(e, i, "")
+        \* built-in reps of different signedness follow the usual arithmetic conversions (C12), not the value reading
+        mixed == BothBuiltin(lt, rt) /\ RepOf(lt).s # RepOf(rt).s
+    IN IF RadixOf(lt) # 2 \/ RadixOf(rt) # 2 \/ IsZero(b) \/ ~InRaw(a, lt) \/ ~InRaw(b, rt) \/ mixed THEN [d |-> "skip", nt |-> FALSE, cls |-> cls]
+       ELSE IF rs.k # "scaled" \/ RadixOf(rs) # 2 THEN [d |-> "wrong_type", nt |-> TRUE, cls |-> cls]
+       ELSE IF ~InRaw(widest, rs) THEN [d |-> "not_wide_enough", nt |-> TRUE, cls |-> cls]
+       ELSE [d |-> (IF e.out # "ok" THEN OutDiag(e.out) ELSE IF J(e.res) = want THEN "ok" ELSE "wrong_value"),
+             nt |-> ~IsZero(TruncRem(IF sh >= 0 THEN Shl(a, sh) ELSE a, IF sh >= 0 THEN b ELSE Shl(b, -sh))), cls |-> cls]
+
 \* comparisons: six results <<lt, le, gt, ge, eq, ne>>
 CmpVector(c) == <<IF c < 0 THEN 1 ELSE 0, IF c <= 0 THEN 1 ELSE 0, IF c > 0 THEN 1 ELSE 0,
                   IF c >= 0 THEN 1 ELSE 0, IF c = 0 THEN 1 ELSE 0, IF c # 0 THEN 1 ELSE 0>>
